@@ -455,7 +455,9 @@ static int planForms(TPlan plan, TCPlan cplan) {
 	int n = 0, m = 0;
 	int co[3] = { NONE, NONE, 0 }, cl[3] = { NONE, NONE, 0 };
 	bool same = true;
+	const TPlan& kplan = plan;			// the mutable plan seen through a const reference: PlanT::CIterator, const first() / last()
 	auto it = plan.begin();
+	auto ki = kplan.begin();
 	for (auto ci = cplan.begin(); ci; ++ci, ++n) {
 		if (n > 300) return 0;
 		const int t[3] = { ci->origin, ci->destination,
@@ -467,19 +469,22 @@ static int planForms(TPlan plan, TCPlan cplan) {
 		};
 		if (n == 0) { co[0] = t[0]; co[1] = t[1]; co[2] = t[2]; }
 		cl[0] = t[0]; cl[1] = t[1]; cl[2] = t[2];
-		if (!it) { same = false; continue; }
+		if (!it || !ki) { same = false; continue; }
 		const auto& task = *it;
-		same = same && task.origin == t[0] && task.destination == t[1];
+		same = same && task.origin == t[0] && task.destination == t[1] && ki->origin == t[0] && ki->destination == t[1];
+		++ki;
 #if VH_PAY
 		same = same && tokOf(task.payload()) == t[2];
 #endif
 		++it; ++m;
 	}
-	if (it) same = false;
+	if (it || ki) same = false;
 	const bool ne = n > 0;
-	if (static_cast<bool>(plan) != ne || static_cast<bool>(cplan) != ne) same = false;
+	if (static_cast<bool>(plan) != ne || static_cast<bool>(cplan) != ne || static_cast<bool>(kplan) != ne) same = false;
 	if (ne) {
 		const auto& f = plan.first(); const auto& l = plan.last(); const auto& cf = cplan.first(); const auto& cla = cplan.last();
+		const auto& kf = kplan.first(); const auto& kl = kplan.last();
+		same = same && kf.origin == co[0] && kf.destination == co[1] && kl.origin == cl[0] && kl.destination == cl[1];
 		same = same && f.origin == co[0] && f.destination == co[1] && cf.origin == co[0] && cf.destination == co[1]
 					&& l.origin == cl[0] && l.destination == cl[1] && cla.origin == cl[0] && cla.destination == cl[1];
 #if VH_PAY
